@@ -14,7 +14,7 @@ import tucan.canonicalization as tc
 import tucan.serialization as tser
 import tucan.graph_utils as tgu
 from tucan.parser import parser as tparser
-from project import project as _project, TAG, ETAG
+from project import project as _project, dense, TAG, ETAG
 
 
 def project(g, **kw):
@@ -153,7 +153,7 @@ class Session:
                 return None
         after = project(g)
         pr = project(res)
-        if "bad" in after:
+        if "bad" in after or after["labs"] != before["labs"]:
             self.ev.append({"op": "raised", "call": "canonicalize_molecule", "arg": k,
                             "clause": "C12:canonicalize-mutated-its-argument(atoms-renamed-or-removed)"})
             return None
@@ -172,7 +172,8 @@ class Session:
         self.ev.append(e)
         return r
 
-    def ser(self, k, wit=None, nowit=False):
+    def ser(self, k, wit=None, nowit=False, raw=False):
+        """raw: the graph is not a result of canonicalize_molecule (its string is not the molecule's identifier)"""
         g = self.objs[k]
         before = project(g)
         if "bad" in before:
@@ -187,12 +188,12 @@ class Session:
             self.ev.append({"op": "raised", "call": "serialize_molecule", "arg": k, "clause": "C05:serialize_molecule-did-not-return-a-string"})
             return None
         after = project(g, keep_scratch=False)
-        if "bad" in after:
+        if "bad" in after or after["labs"] != before["labs"]:
             self.ev.append({"op": "raised", "call": "serialize_molecule", "arg": k,
                             "clause": "C12:serialize-changed-atom-set-or-order(atoms-renamed-or-removed)"})
             return s
-        e = {"op": "ser", "arg": k, "ret": s, "before": before, "after": after}
-        if wit is None and not nowit:
+        e = {"op": "serraw" if raw else "ser", "arg": k, "ret": s, "before": before, "after": after}
+        if wit is None and not nowit and not raw:
             wit, decided = propose_witness(self.prov_graph(k), s)
             if wit is None and decided:
                 e["nowit"] = True
@@ -219,8 +220,8 @@ class Session:
             self.ev.append(e)
             return None
         pr = project(p)
-        if "bad" in pr:
-            e["exc"] = "BadGraph:" + pr["bad"]
+        if "bad" in pr or not dense(pr):
+            e["exc"] = "BadGraph:" + pr.get("bad", "labels are not 0..n-1")
             self.ev.append(e)
             return None
         k = self._new(p)
@@ -268,6 +269,7 @@ class Session:
         import textgen
         k = self._next
         self._next += 1
+        self.last_read = k          # the text's id (also when the reader rejects it)
         e = {"op": "read", "obj": k, "fmt": fmt, "pfx": pfx, "lines": list(lines), "floats": dict(floats or {})}
         e["floats"].pop("", None)
         if mol is not None:
@@ -278,7 +280,7 @@ class Session:
                 g = graph_from_file(via_path)           # the caller put the text there
             elif via_file:
                 import tempfile
-                with tempfile.NamedTemporaryFile("w", suffix=".mol", delete=False, newline="") as f:
+                with tempfile.NamedTemporaryFile("w", suffix=".mol", delete=False, newline="", encoding="utf-8") as f:
                     f.write(text)
                 try:
                     g = graph_from_file(f.name)
@@ -292,8 +294,8 @@ class Session:
             self.ev.append(e)
             return None
         pr = project(g)
-        if "bad" in pr:
-            e["exc"] = "BadGraph:" + pr["bad"]
+        if "bad" in pr or not dense(pr):
+            e["exc"] = "BadGraph:" + pr.get("bad", "labels are not 0..n-1")
             self.objs[k] = None
             self.ev.append(e)
             return None
@@ -379,6 +381,13 @@ def _check_iso(g, h, w):
     return {frozenset((w[a], w[b])) for a, b in g.edges} == {frozenset(e) for e in h.edges}
 
 
+def _ranked(g):
+    labs = sorted(g.nodes)
+    if labs == list(range(len(labs))):
+        return g
+    return nx.relabel_nodes(g, {lab: i for i, lab in enumerate(labs)}, copy=True)
+
+
 def witness_between(g, h, vf2_limit=400):
     """(w, decided): a colour- and bond-preserving bijection g -> h as a list (label a of g |-> w[a] of h) or None;
     decided = the search was complete (None then means: the graphs are not isomorphic).
@@ -387,7 +396,9 @@ def witness_between(g, h, vf2_limit=400):
     n = g.number_of_nodes()
     if n != h.number_of_nodes():
         return None, True
-    if sorted(g.nodes) != list(range(n)) or sorted(h.nodes) != list(range(n)):
+    try:
+        g, h = _ranked(g), _ranked(h)           # the session's records list atoms by rank of their label
+    except Exception:
         return None, False
     try:
         gg, hh = g.copy(), h.copy()
